@@ -16,7 +16,7 @@ xv::Scenario make_scn(const drv::Program& p) {
   auto exec = [s](const drv::Op& o) {
     if (o.name == "update") {
       long a = o.a, olds[2] = {-2, -2}; int n = 0;
-      xv::call("update", a);
+      xv::call_blocking("update", a);
       (*s)->update([&](Pair& d) {
         int id = inst_id(&d);
         xv::ev("ev", "wr_in", id);
